@@ -169,7 +169,7 @@ impl Report {
     }
     pub fn set_add(&mut self, k: &str, h: u64) {
         let s = self.sets.entry(k.to_string()).or_default();
-        if s.len() < 200_000 {
+        if s.len() < 40_000 {
             s.insert(h);
         }
     }
@@ -179,7 +179,7 @@ impl Report {
         }
     }
     pub fn nontrivial(&mut self, h: u64) {
-        if self.nontrivial.len() < 400_000 {
+        if self.nontrivial.len() < 40_000 {
             self.nontrivial.insert(h);
         }
     }
